@@ -10,6 +10,7 @@ from .lang import Roles, S, C, NUM, POP_WRAP, PUSH_WRAP
 from .origin import Origins, show
 from .util import Vars, reaches_without
 
+TECHNIQUE = 'static analysis (no execution): event-language equality (NFA->DFA over all CFG paths of rustc MIR) against a declarative language table; must-pass-through cut queries; finite-domain decision table of the terminating paths'
 LEVEL = "other"
 EXPLANATION = (
     "Path-complete comparison of the interpreter's event structure with a declarative table of the language "
